@@ -62,7 +62,18 @@ def IsBridgeError (o : Outcome) : Prop :=
 /-! ## Totality -/
 
 /-- **Totality.** Whatever is wrapped (a function of any signature with any body, even a
-    non-function), whatever the arguments: no panic escapes `Run`. -/
+    non-function), whatever the arguments: no panic escapes `Run`.
+
+    What this rests on — and what it does not: in the model every panic raised after the `defer` statement
+    (reflect's, the body's) is turned into `(nil, error)` exactly when `shape.recovers` holds, so the proof
+    is two rewrites and would go through for any `runRaw`. The theorem is therefore the conjunction of
+    (1) Go's defer/recover semantics (trusted), (2) the regenerated three-valued source fact
+    `Gen.C19.recoverFact` — decided semantically by the extractor on every check: `Run`'s deferred function
+    itself calls `recover()` and assigns the named error result; `shape.recovers` is `recoverFact ≠ no`
+    (`shape_recovers`), so a tree in which the recover is removed, nested, shadowed or narrowed breaks THIS
+    proof, and a tree whose shape the extractor does not understand is reported as "assumed" and searched
+    harder — and (3) `shape_nil_panic_reported` for panics whose `recover()` returns nil. The model of
+    reflect's own panics contributes nothing to totality; it matters for the error theorems below. -/
 theorem bridge_total (oob : IntKind → Num → Int) (t : Target) (args : List Val) :
     ∀ r, run shape oob t args = r → r ≠ .escaped := by
   intro r h
@@ -380,6 +391,33 @@ theorem numeric_result_is_number (t : Ty) (v : Val) (ht : t.isNumeric = true) (h
 theorem iface_result_is_number (t : Ty) (v : Val) (ht : t.isNumeric = true) (hv : v.ty = some t)
     (hw : ∀ t' c, v ≠ .foreign t' c) : ∃ x, convertResultNumber .iface v = .f64 x := by
   cases t <;> simp [Ty.isNumeric] at ht <;> cases v <;> simp_all [Val.ty, convertResultNumber, Ty.isInterface, numericOf]
+
+/-- **Numbers nested in a returned slice / array.** A result that is a Go slice or array of a numeric
+    element type (`[]int`, `[3]float32`, `[]time.Duration` through `named_numeric_result_exact` …) — whether
+    the result is declared with that type or as `interface{}` — is delivered as an ECAL list (`[]interface{}`)
+    in which every element is an ECAL number; slices of slices and maps are converted the same way
+    (`convertSeq` / `convertMap`). Not covered, by design of the code: a `[]interface{}` /
+    `map[interface{}]interface{}` result is an ECAL value already and is passed on as it is, whatever Go
+    numbers a function has put INTO it. -/
+theorem nested_numbers_delivered (static t : Ty) (xs : Vals) (ht : t.isNumeric = true)
+    (hty : ∀ v ∈ xs.toList, v.ty = some t ∧ ∀ t' c, v ≠ .foreign t' c) :
+    ∃ ys, convertResultNumber static (.seq t xs) = .elist ys ∧ (Val.elist ys).ty = some Ty.list ∧
+      ys.toList.length = xs.toList.length ∧ ∀ y ∈ ys.toList, ∃ x, y = .f64 x := by
+  have hne : t ≠ Ty.iface := by intro h; subst h; simp [Ty.isNumeric] at ht
+  refine ⟨convertSeq t xs, by simp [convertResultNumber, hne], rfl, by simp [convertSeq_toList], ?_⟩
+  intro y hy
+  rw [convertSeq_toList] at hy
+  obtain ⟨v, hv, rfl⟩ := List.mem_map.mp hy
+  obtain ⟨h1, h2⟩ := hty v hv
+  exact numeric_result_is_number t v ht h1 h2
+
+example : convertResultNumber .iface (.seq (.int .int) (.cons (.int .int 1) (.cons (.int .int 2) .nil)))
+    = .elist (.cons (.f64 (.fin 1 0)) (.cons (.f64 (.fin 2 0)) .nil)) := by decide
+
+/-- `map[string][]int{"a": {1, 2}}` becomes the ECAL map `{"a": [1, 2]}`. -/
+example : convertResultNumber (.gmap .str (.slice (.int .int)))
+    (.gomap .str (.slice (.int .int)) (.cons (.str "s:61") (.cons (.seq (.int .int) (.cons (.int .int 1) (.cons (.int .int 2) .nil))) .nil)))
+    = .emapv (.cons (.str "s:61") (.cons (.elist (.cons (.f64 (.fin 1 0)) (.cons (.f64 (.fin 2 0)) .nil))) .nil)) := by decide
 
 /-- **Through `Run`, for every position of a multi-result.** When the call reaches a function without
     trailing error whose body returns `vals` (one per declared result), `Run` delivers
